@@ -431,7 +431,7 @@ def render_attr_case(c, k, canonical=False):
         if c["t"] == "attr":
             named = sorted(named, key=lambda x: ["callback", "priority", "allow_greedy", "ignore"].index(x))
         else:
-            named = sorted(named, key=lambda x: ["crate", "extras", "error", "subA", "subB", "utf8", "lifetime", "ltnone", "type", "skip", "export_dir"].index(x))
+            named = sorted(named, key=lambda x: ["crate", "extras", "error", "errorcb", "subA", "subB", "utf8", "utf8f", "lifetime", "ltnone", "type", "skip", "skipb", "export_dir"].index(x))
     if c["t"] == "attr":
         pat = {"token": "fn", "regex": "[a-z]+x", "skip": "[a-z]+x"}[c["kind"]]
         a = {"kind": c["kind"], "pat": {"s": pat}, "order": named}
@@ -450,6 +450,7 @@ def render_attr_case(c, k, canonical=False):
                 "generic": "|lex| { let _ = lex.slice().parse::<u8>(); }" if unit else "|lex| lex.slice().parse::<u8>().is_ok()",
                 "tuple": "|lex| { let _ = (lex.slice(), 1); }" if unit else "|lex| (lex.slice().len(), 2).0 > [0, 1][1]",
                 "block": "|lex| { let v = [1, 2]; let _ = v.len() > lex.slice().len(); }" if unit else "|lex| { let v = [1, 2]; v.len() > lex.slice().len() }",
+                "bitor": "|lex| drop(lex.slice().is_empty()) == () | false" if unit else "|lex| lex.slice().is_empty() | true",
             }[c["cbv"]]
             if c["cbv"] == "lt" and unit is False and not c["poscb"] and named and named[-1] != "callback":
                 pass
@@ -461,6 +462,7 @@ def render_attr_case(c, k, canonical=False):
     text = {"skip": 'skip("[ ]+", priority = 3)', "extras": "extras = u32", "error": "error = MyErr", "subA": 'subpattern a = "[0-9]"',
             "subB": 'subpattern b = "(?&a)+x"', "utf8": "utf8 = true", "lifetime": "lifetime = 'a", "ltnone": "lifetime = none",
             "type": "type T = &'static str" if "ltnone" in named else "type T = &'a str",
+            "errorcb": "error(MyErr, callback = |_lex| MyErr::default())", "utf8f": "utf8 = false", "skipb": 'skip(b"\\xff+")',
             "crate": "crate = ::logos", "export_dir": 'export_dir = "%s"' % os.path.join(WORK, "export-tmp")}
     lead = "(?&b)y" if "subB" in named else "(?&a)+" if "subA" in named else "[a-z]+"
     d = corpus.mk("items%d" % k, [corpus.rx(lead), corpus.tok("qq")])
